@@ -172,33 +172,37 @@ class Walker:
 
     # ---- conditions
     def classify_cond(self, c, env):
-        """-> ('null',) transparent null tests | ('kind', [labels]) discriminator on ->type | ('retag', text, call) | ('other', text)"""
+        """-> ('guard', [kind labels], [null-tested member paths])  a conjunction of `->type == LABEL` tests (a disjunction of labels
+                 counts as one test) and `path != NULL` tests;  no labels and no else branch = a transparent null test
+              | ('retag', text) | ('other', text)"""
         c0 = strip(c)
         k = c0.get("kind")
         if k == "BinaryOperator" and c0["opcode"] == "&&":
             a, b = self.classify_cond(c0["inner"][0], env), self.classify_cond(c0["inner"][1], env)
-            if a[0] == "null" and b[0] == "null":
-                return ("null",)
+            if a[0] == "guard" and b[0] == "guard":
+                return ("guard", a[1] + b[1], a[2] + b[2])
             if b[0] == "retag" or a[0] == "retag":
                 return ("retag", ctext(c0))
             return ("other", ctext(c0))
         if k == "BinaryOperator" and c0["opcode"] == "||":
             a, b = self.classify_cond(c0["inner"][0], env), self.classify_cond(c0["inner"][1], env)
-            if a[0] == "kind" and b[0] == "kind":
-                return ("kind", a[1] + b[1])
+            if a[0] == "guard" and b[0] == "guard" and len(a[1]) == 1 and len(b[1]) == 1 and not a[2] and not b[2]:
+                return ("guard", [a[1][0] + "|" + b[1][0]], [])
             return ("other", ctext(c0))
         if k == "BinaryOperator" and c0["opcode"] == "!=" and is_null(c0["inner"][1]):
-            self.sym(c0["inner"][0], env)     # must be a known path
-            return ("null",)
+            v = self.sym(c0["inner"][0], env)     # must be a known path
+            if isinstance(v, Path):
+                return ("guard", [], [v.text if v.node_of is None else "%s.%s" % (v.node_of, v.which)])
+            return ("other", ctext(c0))
         if k in ("DeclRefExpr", "MemberExpr"):
             v = self.sym(c0, env)
             if isinstance(v, Path):
-                return ("null",)               # `if (value)` on a pointer
+                return ("guard", [], [v.text if v.node_of is None else "%s.%s" % (v.node_of, v.which)])   # `if (value)` on a pointer
             return ("other", ctext(c0))
         if k == "BinaryOperator" and c0["opcode"] == "==":
             l, r = strip(c0["inner"][0]), strip(c0["inner"][1])
             if l.get("kind") == "MemberExpr" and l.get("name") == "type" and r.get("kind") == "DeclRefExpr" and r["referencedDecl"]["kind"] == "EnumConstantDecl":
-                return ("kind", [r["referencedDecl"]["name"]])
+                return ("guard", [r["referencedDecl"]["name"]], [])
             return ("other", ctext(c0))
         if k == "CallExpr" and callee_name(c0) == "expr_id_tailrec":
             return ("retag", ctext(c0))
@@ -245,14 +249,17 @@ class Walker:
         elif k == "IfStmt":
             inner = s["inner"]
             cls = self.classify_cond(inner[0], env)
-            if cls[0] == "null":
-                self.stmt(inner[1], env, ctx)
+            if cls[0] == "guard" and not cls[1] and len(inner) == 2:
+                self.stmt(inner[1], env, ctx)          # a plain null test: transparent
+            elif cls[0] == "guard":
+                # a discriminating test: both branches are alternatives; the qualifier names the labels and the tested pointers
+                q = "&".join(cls[1] + ["has:" + x for x in cls[2]])
+                self.stmt(inner[1], dict(env), dict(ctx, quals=ctx["quals"] + (q,)))
                 if len(inner) > 2:
-                    raise Unrecognised("else branch of a null test")
-            elif cls[0] == "kind":
-                self.stmt(inner[1], env, dict(ctx, quals=ctx["quals"] + ("|".join(cls[1]),)))
-                if len(inner) > 2:
-                    self.stmt(inner[2], env, ctx)      # else-if chain: the next discriminator adds its own qualifier
+                    if inner[2].get("kind") == "IfStmt" and not cls[2]:
+                        self.stmt(inner[2], dict(env), ctx)      # else-if chain over ->type: the next discriminator adds its own qualifier
+                    else:
+                        self.stmt(inner[2], dict(env), dict(ctx, quals=ctx["quals"] + ("else:" + q,)))
             elif cls[0] == "retag":
                 if len(inner) > 2:
                     raise Unrecognised("else branch of the retagging test")
